@@ -322,6 +322,11 @@ func genericJustify(p *Prog, f *ssa.Function, at ssa.Instruction) (bool, string)
 				}
 			}
 		}
+		// (9) X[I : I+k] / X[I] where I counts up from a non-negative start by one and the access is guarded by
+		//     I (+k−1) < len(X): the loop idiom `for i := range X` / `for i := 0; i < len(X); i++`
+		if ok, why := inductionInBounds(at); ok {
+			return true, why
+		}
 		// (6) slice bound is the count returned by a call that received this very buffer
 		if ok, why := validateCountOfCallee(p, f, at); ok {
 			return true, why
